@@ -56,7 +56,7 @@ def gen_history(rng, big):
         if r < 0.3:
             steps.append({"a": "derive", "kind": rng.choice(["slice", "add", "T", "sum", "copy", "neg_step", "mul_self"]), "seed": rng.randrange(10**6)})
         elif r < 0.65:
-            steps.append({"a": "assign", "key": rng.choice(["int", "slice", "neg_step", "ellipsis", "np_mask", "da_mask", "int_list", "full", "int_and_slice"]), "value": rng.choice(["scalar", "scalar", "np_array", "np_broadcast", "da_array", "masked"]), "seed": rng.randrange(10**6)})
+            steps.append({"a": "assign", "key": rng.choice(["int", "slice", "neg_step", "ellipsis", "np_mask", "da_mask", "int_list", "full", "int_and_slice", "da_int", "da_int"]), "value": rng.choice(["scalar", "scalar", "np_array", "np_broadcast", "da_array", "masked"]), "seed": rng.randrange(10**6)})
         elif r < 0.75:
             steps.append({"a": "out", "where": rng.random() < 0.4, "seed": rng.randrange(10**6)})
         elif r < 0.82:
@@ -99,6 +99,16 @@ def make_key(kind, shape, r):
     if kind == "int_list":
         k = sorted({r.randrange(0, n0) for _ in range(r.randint(1, max(1, min(4, n0))))})
         return (k,), None
+    if kind == "da_int":
+        # a dask integer array as the key: distinct positions, some written as negatives, usually fewer than the axis has
+        m = r.randint(1, max(1, min(5, n0)))
+        pos = r.sample(range(n0), m)
+        k = [p_ - n0 if r.random() < 0.5 else p_ for p_ in pos]
+        if nd > 1 and r.random() < 0.4:
+            n1 = shape[1]
+            a1 = r.randrange(0, n1)
+            return (k, slice(a1, r.randrange(a1, n1 + 1))), "da_int"
+        return (k,), "da_int"
     if kind in ("np_mask", "da_mask"):
         return "mask", kind
     raise ValueError(kind)
@@ -195,8 +205,13 @@ def run_history(steps, ctx):
             else:
                 npkey = key if len(key) > 1 else key[0]
                 dkey = npkey
+                if mk == "da_int":
+                    dk0 = da.from_array(np.array(key[0], dtype=np.int64), chunks=max(1, (len(key[0]) + 1) // 2))
+                    dkey = (dk0,) + tuple(key[1:]) if len(key) > 1 else dk0
             sel_shape = np.empty(xm.shape, dtype=bool)[npkey].shape
             vk = s["value"]
+            if mk == "da_int" and r.random() < 0.7:
+                vk = "scalar"  # array values through a dask integer key are a recorded finding: keep them a minority
             if key == "mask" and vk in ("np_array", "np_broadcast", "da_array", "masked"):
                 vk = "scalar"
             rv = np.random.default_rng(s["seed"])
